@@ -26,6 +26,8 @@ pub enum Op {
     SetPolicy(PolKind),
     /// consume the reader through `into_records()`; ends the history
     IntoRecords,
+    /// `shrink_buffer_to_fit()` on a record set: must not change what the set holds
+    ShrinkSet(u8),
 }
 
 #[derive(Clone, Debug, PartialEq, Eq)]
@@ -183,6 +185,13 @@ pub fn run_ops<R: SeekRdr<Src = Source>>(spec: &RunSpec) -> Trace {
                 pol_logs.push(log);
                 pol_installed_at.push(oi);
                 r.set_policy(pol);
+                if r.policy_kind() != *k {
+                    panic!("policy() does not return the policy installed by set_policy(): installed {:?}, got {:?}", k, r.policy_kind());
+                }
+                Ev::Policy
+            }
+            Op::ShrinkSet(s) => {
+                R::set_shrink(&mut slots[*s as usize % N_SLOTS]);
                 Ev::Policy
             }
             Op::IntoRecords => {
@@ -193,6 +202,11 @@ pub fn run_ops<R: SeekRdr<Src = Source>>(spec: &RunSpec) -> Trace {
         };
         let pos_after = rdr.as_ref().and_then(|r| r.pos());
         let slots_after: Vec<Vec<NRec>> = slots.iter().map(|s| R::set_recs(s)).collect();
+        for (j, s) in slots.iter().enumerate() {
+            if R::set_len(s) != slots_after[j].len() || R::set_is_empty(s) != slots_after[j].is_empty() {
+                panic!("record set {}: len() = {}, is_empty() = {}, but iteration yields {} records", j, R::set_len(s), R::set_is_empty(s), slots_after[j].len());
+            }
+        }
         let grows_after = pol_logs.iter().map(|l| l.borrow().len()).sum();
         steps.push(Step {
             op: op.clone(),
